@@ -255,9 +255,9 @@ def boundary_cases(o, fams):
     the products stop at 9 entries and the big-map cases sit at 300 of 300."""
     for cap, L in BOUND:
         P = sorted({0, 1, 7, 8, 31, 32, 62, 63, 64, 255, 256, L - 2, L - 1} & set(range(L)))
-        few = sorted({0, 63, 64, 256, L - 1} & set(range(L)))
+        heavy = L > 100       # the model's slots are closures: a 257-entry container costs seconds, so only a few cases
+        few = [256] if heavy else sorted({0, 63, 64, L - 1} & set(range(L)))
         absent = L
-        heavy = L > 100
         for rem in ((False,) if heavy else (False, True)):
             def start(regs="m", m1cap=None):
                 o.case(m0=cap if "m" in regs else 0, m1=(m1cap if m1cap is not None else cap) if "m" in regs else 0,
@@ -291,23 +291,25 @@ def boundary_cases(o, fams):
                         o.op(f"m0 index_mut {p} 2", test=True)
                 o.op("m0 len")
                 o.end()
-                for c in few + [absent]:
-                    for tmpl in (f"m0 insert {{k{c}}} {{v}}", f"m0 insert_key_value {{k{c}}} {{v}}",
-                                 f"m0 checked_insert {{k{c}}} {{v}}", f"m0 remove q:{c}#0", f"m0 remove_entry k:{c}#0"):
+                for c in few + ([] if heavy else [absent]):
+                    for tmpl in ((f"m0 insert_key_value {{k{c}}} {{v}}", f"m0 remove q:{c}#0") if heavy else
+                                 (f"m0 insert {{k{c}}} {{v}}", f"m0 insert_key_value {{k{c}}} {{v}}",
+                                  f"m0 checked_insert {{k{c}}} {{v}}", f"m0 remove q:{c}#0", f"m0 remove_entry k:{c}#0")):
                         start()
                         o.op(inst(o, tmpl), test=True)
                         look()
                         o.end()
-                for tmpl in ("m0 retain 87381 1", "m0 retain 5 0", "m0 clear"):
+                for tmpl in (() if heavy else ("m0 retain 87381 1", "m0 retain 5 0", "m0 clear")):
                     start()
                     o.op(tmpl, test=True)
                     look()
                     o.end()
             if "e" in fams:
-                for c in few + [absent]:
-                    for mods, fin in (("[1]", "oi:{v}"), ("[]", "o.get"), ("[2]", "o.get_mut:2"), ("[]", "o.insert:{v}"),
+                for c in few + ([] if heavy else [absent]):
+                    for mods, fin in ((("[2]", "o.get_mut:2"), ("[]", "o.remove_entry"), ("[1]", "oi:{v}")) if heavy else
+                                     (("[1]", "oi:{v}"), ("[]", "o.get"), ("[2]", "o.get_mut:2"), ("[]", "o.insert:{v}"),
                                       ("[]", "o.remove"), ("[]", "o.remove_entry"), ("[]", "o.key"), ("[]", "key"),
-                                      ("[]", "v.insert:{v}"), ("[1,2]", "od:{v0}")):
+                                      ("[]", "v.insert:{v}"), ("[1,2]", "od:{v0}"))):
                         start()
                         o.op(inst_fin(o, f"m0 entry {{k{c}}} {mods} {fin}"), test=True)
                         look()
@@ -317,7 +319,7 @@ def boundary_cases(o, fams):
                 if L > 64:
                     tups += [[64, 63], [63, 64, 0], [64, 64]]
                 if L > 256:
-                    tups += [[256, 255], [255, 256, 0], [256, 0, 256]]
+                    tups = [[256, 255], [255, 256, 0], [256, 0, 256]]
                 for name in (["gdm", "gdum"] if "u" in fams else ["gdm"]):
                     for tup in tups:
                         if name == "gdum" and (len(set(tup)) != len(tup)):
@@ -328,7 +330,7 @@ def boundary_cases(o, fams):
                         for c in tup:
                             o.op(f"m0 get_mut q:{c}#0 0")
                         o.end()
-            if "q" in fams:
+            if "q" in fams and not heavy:
                 for m1cap in ((cap,) if heavy else (cap, 300 if cap == 64 else 64)):
                     if m1cap < L:
                         continue
@@ -362,8 +364,9 @@ def boundary_cases(o, fams):
                         o.op(f"s0 contains {p}", test=True)
                         o.op(f"s0 get {p}", test=True)
                 o.end()
-                for c in few + [absent]:
-                    for tmpl in (f"s0 insert {{k{c}}}", f"s0 replace {{k{c}}}", f"s0 remove q:{c}#0", f"s0 take k:{c}#0"):
+                for c in few + ([] if heavy else [absent]):
+                    for tmpl in ((f"s0 replace {{k{c}}}", f"s0 take k:{c}#0") if heavy else
+                                 (f"s0 insert {{k{c}}}", f"s0 replace {{k{c}}}", f"s0 remove q:{c}#0", f"s0 take k:{c}#0")):
                         start("s")
                         o.op(inst(o, tmpl), test=True)
                         look("s0")
@@ -379,7 +382,7 @@ def boundary_cases(o, fams):
                         o.op(f"s0 {pred} s1", test=True)
                         o.op(f"s1 {pred} s0", test=True)
                     o.end()
-            if "i" in fams:
+            if "i" in fams and not heavy:
                 start("ms")
                 for kind in ("iter", "keys", "values", "iter_mut", "values_mut"):
                     o.op(f"m0 iter {kind} 1 lhnlhx", test=True)
@@ -388,7 +391,7 @@ def boundary_cases(o, fams):
                 o.op("s0 iter lhnlhx", test=True)
                 o.op("s0 iter nnz", test=True)
                 o.end()
-            if "c" in fams:
+            if "c" in fams and not heavy:
                 for line in (f"m0 drain {L + 1} drop", "m0 drain 2 drop", "m0 drain 1 forget", f"m0 into_iter pairs {L + 1} drop",
                              "m0 into_iter keys 2 drop", "m0 into_iter values t9 count", "m0 into_iter pairs z drop",
                              "m0 drain tM drop"):
@@ -398,7 +401,7 @@ def boundary_cases(o, fams):
                     o.op(f"m0 insert {o.k(3)} {o.v()}")
                     look()
                     o.end()
-            if "b" in fams and not rem:
+            if "b" in fams and not rem and not heavy:
                 for pulls in ((0, 1, 3) if L == cap else (1, 3)):
                     o.case(m0=cap, m1=cap, s0=cap, s1=cap, tag="b")
                     xs = ",".join(f"{o.k(c)}={o.id()}#{c % 7}" for c in range(L))
@@ -585,6 +588,7 @@ SWEEP_FAMILIES = {"C01": "d", "C02": "dcq", "C03": "des", "C05": "descq", "C07":
 
 
 def gen_C01(o, rng, tier):
+    boundary_cases(o, "d")
     shapes_cases(o)
     n = tier_n(tier)
     for nn in range(0, n + 1):
@@ -675,6 +679,7 @@ def insertion_entry_points(reg, u):
 
 
 def gen_C03(o, rng, tier):
+    boundary_cases(o, "d")
     n = tier_n(tier)
     for nn in range(0, n + 1):
         # full (and nearly full) layouts only
@@ -860,6 +865,8 @@ def gen_C04_phase2(o, trace_path, ops_path):
 
 
 def gen_C05(o, rng, tier):
+    boundary_cases(o, "de")
+    deser_cases(o, caps=(2, 3, 4))
     n = tier_n(tier)
 
     def tmpls(reg, u, lay):
@@ -976,6 +983,7 @@ def set_ops_basic(reg, u):
 
 
 def gen_C07(o, rng, tier):
+    boundary_cases(o, "s")
     n = tier_n(tier)
     for nn in range(0, n + 1):
         u = list(range(nn + 1))
@@ -1003,6 +1011,7 @@ def gen_C07(o, rng, tier):
 
 
 def gen_C08(o, rng, tier):
+    boundary_cases(o, "a")
     nu = 3 if tier == "quick" else 4
     u = list(range(nu))
     caps = [(3, 3), (3, 4), (4, 3), (0, 3), (3, 0), (0, 0), (1, 2)] if tier == "quick" else \
@@ -1030,6 +1039,7 @@ def gen_C08(o, rng, tier):
 
 
 def gen_C09(o, rng, tier):
+    boundary_cases(o, "i")
     shapes_cases(o)
     n = tier_n(tier)
     kinds = ["iter", "keys", "values", "iter_mut", "values_mut"]
@@ -1065,6 +1075,7 @@ def gen_C09(o, rng, tier):
 
 
 def gen_C10(o, rng, tier):
+    boundary_cases(o, "c")
     shapes_cases(o)
     n = tier_n(tier)
     for nn in range(0, n + 1):
@@ -1105,6 +1116,7 @@ def gen_C10(o, rng, tier):
 
 
 def gen_C11(o, rng, tier):
+    boundary_cases(o, "e")
     n = tier_n(tier)
 
     def tmpls(reg, u, lay):
@@ -1134,6 +1146,7 @@ def gen_C11(o, rng, tier):
 
 
 def gen_C12(o, rng, tier):
+    boundary_cases(o, "ds")
     n = tier_n(tier)
 
     def tmpls(reg, u, lay):
@@ -1175,6 +1188,8 @@ def gen_C12(o, rng, tier):
 
 
 def gen_C13(o, rng, tier, unchecked=False, eq="lawful"):
+    if eq == "lawful":
+        boundary_cases(o, "gu" if unchecked else "g")
     n = tier_n(tier)
     name = "gdum" if unchecked else "gdm"
     for nn in range(0, n + 1):
@@ -1266,6 +1281,7 @@ def big_map_gdm(o, rng, name, eq):
 
 
 def gen_C14(o, rng, tier):
+    boundary_cases(o, "q")
     nu = 3
     u = list(range(nu))
     caps = [(3, 3), (3, 4), (4, 3), (0, 3), (3, 0), (0, 0), (1, 6), (6, 1)]
@@ -1337,6 +1353,7 @@ def clone_from_product(o, n):
 
 
 def gen_C15(o, rng, tier):
+    boundary_cases(o, "q")
     shapes_cases(o)
     n = tier_n(tier)
     for nn in range(0, n + 1):
@@ -1389,6 +1406,7 @@ def gen_C15(o, rng, tier):
 
 
 def gen_C16(o, rng, tier):
+    boundary_cases(o, "b")
     n = tier_n(tier)
     for nn in range(0, n + 1):
         u = list(range(nn + 2))
@@ -1534,7 +1552,30 @@ def gen_C19(o, rng, tier):
     umap_product(o, 2, {'fmt', 'iter'})
 
 
+def deser_cases(o, caps=(0, 1, 2, 3, 4, 6)):
+    """token streams that no `Serialize` of the crate writes but any other producer may: repeated keys
+    (the later value wins, one entry stays), repeats when the container is already full, more distinct
+    keys than capacity; every size_hint behaviour of the deserializer."""
+    streams = [[], [1], [1, 1], [1, 2, 1], [2, 1, 1, 2], [1, 2, 3, 1], [1, 2, 3, 3, 2, 1], [3, 3, 3], [1, 2, 3, 4, 1],
+               [5, 4, 3, 2, 1, 0, 5, 6], [0, 0, 1, 1, 2, 2, 3, 3]]
+    for cap in caps:
+        for xs in streams:
+            for h in range(4):
+                o.case(m0=cap, m1=cap, s0=cap, s1=cap, tag="t")
+                o.op(f"m0 insert {o.k(7)} {o.v()}")
+                o.op(f"m0 deser {h} [" + ",".join(f"{c}={10 * i + c}" for i, c in enumerate(xs)) + "]", test=True)
+                o.op("m0 len")
+                o.op("m0 iter iter 0 " + "n" * (cap + 1))
+                for c in sorted(set(xs)):
+                    o.op(f"m0 get q:{c}#0")
+                o.op(f"s0 deser {h} [" + ",".join(str(c) for c in xs) + "]", test=True)
+                o.op("s0 len")
+                o.op("s0 iter " + "n" * (cap + 1))
+                o.end()
+
+
 def gen_C20(o, rng, tier):
+    deser_cases(o)
     """serde round trips: every layout (with and without a removal in its history) of every source
     capacity into every target capacity of the menu (sufficient, exactly sufficient, insufficient),
     maps and sets; then the decoded container is compared and used."""
